@@ -10,7 +10,8 @@ from ..build import Builder
 PID = "C10"
 LEVEL = "exploration"
 RULE = ("(a) enumerated: bundle definition trees of depth <=2 and fan-out <=2 with every assignment of the six leaf kinds "
-        "(input, output, inout, undirected port, role-directed, plain), leaf width in {1,3}, flip state at each level written "
+        "(input, output, inout, undirected port, role-directed, plain, plain with a direction attribute but no port visibility), roles "
+        "given as the role set's own objects or as fresh equal Role objects, leaf width in {1,3}, flip state at each level written "
         "as constructor flag, flipped(), and double applications, role in {none, source, sink, unrelated}, port vs internal "
         "instantiation (quick: a fixed systematic sub-family; thorough: all); (b) Hypothesis: trees of depth <=3, fan-out <=3, "
         "widths <=8, and generated parent designs that connect bundle-port children through bundle instances, sub-bundle "
@@ -117,6 +118,10 @@ def feats(case):
     f.add("depth%d" % depth_of(case["bundles"], i[1]))
     if i[3]:
         f.add("top_flipped")
+    if any(b.get("roles") == "fresh" for b in case["bundles"]):
+        f.add("roles_as_fresh_equal_objects")
+    if any(s[2].startswith("plain_d") for b in case["bundles"] for s in b["sigs"]):
+        f.add("leaf_direction_without_port_visibility")
     if len(i) > 4 and i[4]:
         f.add("top_role")
     for b in case["bundles"]:
@@ -134,7 +139,7 @@ def feats(case):
     return sorted(f)
 
 
-KINDS = ["in", "out", "inout", "port", "role_ab", "plain"]
+KINDS = ["in", "out", "inout", "port", "role_ab", "plain", "plain_din"]
 FLIPS = [(False, "c0f0"), (True, "c1f0"), (True, "c0f1"), (False, "c1f1"), (False, "c0f2"), (True, "c1f2")]
 ROLES = [None, "A", "B", "C"]
 
@@ -149,9 +154,10 @@ def box(full):
                 for (sf, svia), srole, (tf, tvia), trole, port in itertools.product(flips, ROLES, flips, ROLES, (True, False)):
                     if not port and (trole or srole) and not full:
                         continue
-                    sub = {"name": "S", "roles": True, "subs": [],
+                    rstyle = "fresh" if (len(tl) + len(sl) + int(sf) + int(tf)) % 2 else True
+                    sub = {"name": "S", "roles": rstyle, "subs": [],
                            "sigs": [["xyzw"[i], width, k] for i, k in enumerate(sl)]}
-                    top = {"name": "T", "roles": True,
+                    top = {"name": "T", "roles": rstyle,
                            "sigs": [["xyzw"[i], width, k] for i, k in enumerate(tl)],
                            "subs": [["u", 0, sf, svia, srole]]}
                     yield {"bundles": [sub, top], "inst": ["b", 1, port, tf, trole, tvia]}
@@ -201,14 +207,14 @@ def shard(idx, n, tier):
         nb = draw(st.integers(1, 4))
         for k in range(nb):
             nl = draw(st.integers(1, 3))
-            sigs = [["xyz"[i], draw(st.integers(1, 8)), draw(st.sampled_from(KINDS + ["role_ba"]))] for i in range(nl)]
+            sigs = [["xyz"[i], draw(st.integers(1, 8)), draw(st.sampled_from(KINDS + ["role_ba", "plain_dout"]))] for i in range(nl)]
             subs = []
             if k > 0:
                 for i in range(draw(st.integers(0, 3))):
                     sidx = draw(st.integers(0, k - 1))
                     f, via = draw(st.sampled_from(FLIPS))
                     subs.append(["uvt"[i], sidx, f, via, draw(st.sampled_from(ROLES))])
-            bundles.append({"name": "B%d" % k, "roles": True, "sigs": sigs, "subs": subs})
+            bundles.append({"name": "B%d" % k, "roles": draw(st.sampled_from([True, "fresh"])), "sigs": sigs, "subs": subs})
         f, via = draw(st.sampled_from(FLIPS))
         inst = ["b", nb - 1, draw(st.integers(0, 9)) < 8, f, draw(st.sampled_from(ROLES)), via]
         return {"bundles": bundles, "inst": inst, "style": draw(st.sampled_from(["proc", "class", "gen"]))}
